@@ -563,4 +563,56 @@ def run(ctx, prog):
     ret = flow.render(avv.of_local(0))
     ctx.inst('C10.R7', av.short, 'Some only for a constant-time match of an enabled tenant', bool(ct) and bool(en) and bool(some) and not any(x in r1 or x in r2 for x in some) and 'var:validated' in ret,
              'ct_eq guard %s, enabled guard %s, Some-assignments %s' % (ct[:1], en[:1], some))
+    # ------------------------------------------------------------------ R8 tenant indexes are unique
+    ctx.rule('C10.R8', 'tenant index allocation is injective: the tenant → index map is either the persisted map unchanged, or a map created empty in the same '
+                       'function and filled with the positions of a sorted, de-duplicated id list; afterwards the only insertion gives a new tenant the index '
+                       'len(map) under the write lock (dense 0..len−1 ⇒ fresh), the only removal undoes that insertion when persisting fails, and nobody else '
+                       'takes the map for writing. Every isolation mechanism (global id, reserved keys, cache scope) keys on this index')
+    tm_bodies = [b for b in prog.bodies.values() if '::TenantIdMapper::' in b.id and b.kind != 'Promoted']
+    n_w = 0
+    for b in sorted(tm_bodies, key=lambda x: x.id):
+        of8 = flow.Origin(b)
+        for c in b.calls:
+            if not (c.callee and c.args and re.search(r'HashMap<.*>::(insert|entry|extend|retain|clear|remove|drain|get_mut|iter_mut|values_mut)$|HashMap::(insert|entry|extend|retain|clear|remove|drain|get_mut|iter_mut|values_mut)$', flow.short(c.callee))):
+                continue
+            recv = flow.render(of8.of_operand(c.args[0]))
+            if 'TenantIdMapper.map' not in recv and not re.match(r'^HashMap::(with_capacity|new)\(', recv) and 'de::from_slice' not in recv:
+                continue
+            n_w += 1
+            meth = flow.short(c.callee).split('::')[-1]
+            fn = b.short.split('::{')[0]
+            k8 = sum(1 for x in ctx.instances if x['rule'] == 'C10.R8' and x['key'].startswith('C10.R8 | %s | map.%s' % (fn, meth)))
+            if meth == 'insert':
+                val = flow.render(of8.of_operand(c.args[2]))
+                fresh = bool(re.match(r'^<T as convert::TryInto<U>>::try_into\(HashMap::len\(%s\)\)@Continue→Continue\.0$' % re.escape(recv), val)) and 'RwLock::write(' in recv
+                enum_ = bool(re.match(r'^HashMap::(with_capacity|new)\(', recv)) and bool(re.match(r'^<T as convert::TryInto<U>>::try_into\(<enumerate::Enumerate<I> as iterator::Iterator>::next\(Iterator::enumerate\(', val)) and val.endswith('@Some→Some.0.0)@Continue→Continue.0')
+                dd = [x for x in b.calls if x.callee and x.callee.endswith('Vec::dedup') and b.dominates(x.bb, c.bb)]
+                srt = [x for x in b.calls if x.callee and re.search(r'slice::sort(_unstable)?$', flow.short(x.callee)) and any(b.dominates(x.bb, d.bb) for d in dd)]
+                ok = fresh or (enum_ and bool(dd) and bool(srt))
+                ctx.inst('C10.R8', fn, 'map.insert #%d gives a fresh index' % k8, ok,
+                         ('index = len(map) under the write lock' if fresh else 'fresh map filled with positions of the sorted, de-duplicated id list' if ok else
+                          'insert into %s with index %s: neither len(map) under the write lock nor the position in a de-duplicated list filling an empty map — two tenants can share an index' % (recv[:50], val[:90])))
+            elif meth == 'remove':
+                # only to undo the insertion of this call when persisting failed
+                ins = [x for x in b.calls if x.callee and flow.short(x.callee).endswith('HashMap::insert') and b.dominates(x.bb, c.bb)]
+                per = [x for x in b.calls if x.callee and x.callee.endswith('TenantIdMapper::persist_map_atomic')]
+                f_e = [e for x in per for e in (flow.failure_edges(b, x) or [])]
+                on_fail = bool(f_e) and c.bb in (b.reach([e[1] for e in f_e]) | set(e[1] for e in f_e)) and c.bb not in b.reach([0], avoid_edges=f_e)
+                same_key = bool(ins) and flow.render(of8.of_operand(c.args[1])) == 'arg:tenant_id'
+                ctx.inst('C10.R8', fn, 'map.remove #%d only undoes this call\'s insertion after a failed persist' % k8, bool(ins) and on_fail and same_key, 'after insert: %s; on the persist failure edge only: %s' % (bool(ins), on_fail))
+            else:
+                ctx.inst('C10.R8', fn, 'map.%s #%d is not a recognised way to allocate an index' % (meth, k8), False,
+                         '%s on %s at %s: the allocation must be insert(len(map)) or filling an empty map by position' % (meth, recv[:60], c.loc))
+        for i_, blk in enumerate(b.blocks):
+            for st in blk['s']:
+                rv = st.get('rv')
+                if rv and rv['k'] == 'agg' and rv.get('adt', '').endswith('TenantIdMapper') and 'map' in (rv.get('fields') or []):
+                    mo = flow.render(of8.of_operand(rv['ops'][rv['fields'].index('map')]))
+                    ok = bool(re.match(r'^RwLock::new\((de::from_slice\(fs::read\(arg:path\)@Continue→Continue\.0\)@Continue→Continue\.0|HashMap::(with_capacity|new)\(.*\))\)$', mo))
+                    k8 = sum(1 for x in ctx.instances if x['rule'] == 'C10.R8' and x['key'].startswith('C10.R8 | %s | mapper built' % b.short))
+                    ctx.inst('C10.R8', b.short, 'mapper built #%d from the persisted map as is, or from a map created empty here' % k8, ok, 'map = %s' % mo[:110])
+    ctx.floor('C10.R8', 'write calls on the tenant map', n_w, 3, 'load_or_create insert, ensure_tenant insert + remove')
+    writers = sorted(set(c.body.short.split('::{')[0] for c in prog.all_calls() if c.callee and re.search(r'RwLock<.*>::write$|RwLock::write$', flow.short(c.callee)) and c.args and
+                         'TenantIdMapper.map' in flow.render(flow.Origin(c.body).of_operand(c.args[0]))))
+    ctx.inst('C10.R8', 'TenantIdMapper.map', 'write access only in ensure_tenant', [w.split('::', 1)[-1] for w in writers] == ['TenantIdMapper::ensure_tenant'], 'writers: %s' % writers)
     ctx.stat('functions_analysed', len(set(i['key'].split(' | ')[1] for i in ctx.instances)))
